@@ -416,6 +416,46 @@ Definition invalid_item_param_misplaced (F : features) (d : dinput) : bool :=
 Definition invalid_param_misplaced (F : features) (d : dinput) : bool :=
   invalid_type_param_misplaced F d || invalid_item_param_misplaced F d.
 
+(** * R12 (continued) — `bound` on a companion trait whose primary is educed on the same type.
+
+    `Eq` next to `PartialEq`, `Copy` next to `Clone` and `PartialOrd` next to `Ord` get their impl
+    from the PRIMARY's handler, with the primary's bounds: the companion's own type-level
+    attribute then takes no `bound` (it would be dropped silently).  "Educed" means named at the
+    type level with its feature enabled ([educed F]): with the primary's feature off the
+    companion stands alone and `bound` is its ordinary parameter. *)
+Definition primary_of (t : trait) : option trait :=
+  match t with
+  | TEq => Some TPartialEq
+  | TCopy => Some TClone
+  | TPartialOrd => Some TOrd
+  | _ => None
+  end.
+
+(** `Eq(.. bound ..)` / `Copy(.. bound ..)` / `PartialOrd(.. bound ..)` at the type level, in any
+    spelling of the parameter (`bound(..)`, `bound = ..`, bare `bound`), while PartialEq / Clone /
+    Ord respectively is educed.  (None of the three is a byte-wise union trait: their type-level
+    parameter list is always the plain one.) *)
+Definition invalid_companion_bound (F : features) (d : dinput) : bool :=
+  existsb (fun m => match meta_trait F m with
+                    | Some t => match primary_of t with
+                                | Some p => educed F p d
+                                            && existsb (key_is "bound") (params LPlain m)
+                                | None => false
+                                end
+                    | None => false
+                    end) (type_metas d).
+
+(** * R12 (continued) — a `Default` attribute below the type level beside a type-level expression.
+
+    When the type-level `Default(...)` carries `expression` / `expr`, the default value IS that
+    expression: no variant / field designation and no field value is read, so a `Default` item
+    on a variant or a field (`Default`, `Default = v`, `Default(expression ..)`, any parameter)
+    would be dropped silently.  Only the empty list `Default()` says nothing and is let through.
+    Structs, enums and unions alike. *)
+Definition invalid_default_beside_type_expression (F : features) (d : dinput) : bool :=
+  default_has_expression F d &&
+  existsb (fun x => names F TDefault (snd x) && negb (empty_list (snd x))) (item_metas d).
+
 (** * R12 (continued) — `name` on a field that Debug shows positionally *)
 
 (** the literal `false` as the value of parameter [k]: `k = false`, `k(false)` *)
@@ -569,6 +609,8 @@ Definition classes : list (string * (features -> dinput -> bool)) :=
    ("into_undeclared", invalid_into_undeclared);
    ("rank_twice", invalid_rank_twice);
    ("param_misplaced", invalid_param_misplaced);
+   ("companion_bound", invalid_companion_bound);
+   ("default_beside_type_expression", invalid_default_beside_type_expression);
    ("name_on_positional", invalid_name_on_positional);
    ("debug_nothing", invalid_debug_nothing)].
 
